@@ -335,6 +335,21 @@ def long_name_scenarios(rng, tag, n):
     return out
 
 
+def span_nodest_scenarios(rng, tag, n):
+    """a scope whose span handler has no destination option: the handler factory builds nothing for it (the oracles see a
+    scope without handler); clients of that scope and, afterwards, of the other scope (found by the round-9 sub-agent of C14)"""
+    out = []
+    for i in range(n):
+        cfg = base_cfg(rng, tag)
+        k = i % 2
+        cfg["secrets"][k]["nohandler"] = True
+        cfg["secrets"][k]["span"] = {"dest": "none", "pt": 0, "ra": "", "sw": ""}
+        a1, a2 = ("10.1.0.5", "10.2.0.5") if k == 0 else ("10.2.0.5", "10.1.0.5")
+        steps = session_steps(1, 0, pap_login("alice", "alice-pw-" + tag), fl=1) + session_steps(2, 1, pap_login("alice", "x"), fl=1)
+        out.append({"id": "spannodest-%d" % i, "cfg": cfg, "conns": [{"c": 1, "addr": a1}, {"c": 2, "addr": a2}], "steps": steps, "iso": False, "log": False})
+    return out
+
+
 def repeated_rule_scenarios(rng, tag, n):
     """command rules that are met again and again by the same request: a rule whose only pattern does not compile (the
     request is refused every time), and rules whose verdict depends on a word being there twice"""
@@ -866,6 +881,8 @@ def collect(ctx, prop):
         scen += repeated_rule_scenarios(rng, tag, 20 if quick else 300)
     if prop in ("C07", "C11"):
         scen += many_args_scenarios(rng, tag, 40 if quick else 600)
+    if prop in ("C14", "C13"):
+        scen += span_nodest_scenarios(rng, tag, 2 if quick else 4)
     if prop in ("C07", "C10", "C14"):
         scen += long_name_scenarios(rng, tag, 3 if quick else 6)
     if prop == "C12":
